@@ -7,6 +7,8 @@ goroutines, each issuing any number of calls with any keys, the user function re
 number of other goroutines' steps.
 -/
 import GoZero.C07.ProofsSF
+import GoZero.C07.ProofsLC
+set_option linter.unusedSimpArgs false
 namespace GoZero.C07
 
 /-! ## SingleFlight (core/syncx/singleflight.go) -/
@@ -82,5 +84,89 @@ theorem sfDemo_reach : ∀ s, SF.run SF.init sfDemo = some s → SF.Reach s := b
 
 example : (SF.run SF.init sfDemo).map (fun s => s.rets.map fun r => (r.tid, r.key, r.val, r.fresh, r.exec))
     = some [(2, 7, 42, false, 0), (1, 7, 42, false, 0), (0, 7, 42, true, 0)] := by decide
+
+/-! ## LockedCalls (core/syncx/lockedcalls.go) -/
+
+theorem lc_exclusive_per_key {s : LC.St} (h : LC.Reach s) (t u : Tid)
+    (ht : (s.pc t).inFlight = true) (hu : (s.pc u).inFlight = true) (hk : s.key t = s.key u) : t = u := by
+  have hi := LC.inv_reach h
+  have a := hi.flight t ht
+  have b := hi.flight u hu
+  have c := (hi.owns t (by revert ht; cases s.pc t <;> simp [LC.PC.inFlight, LC.PC.owns])).2
+  have d := (hi.owns u (by revert hu; cases s.pc u <;> simp [LC.PC.inFlight, LC.PC.owns])).2
+  rw [hk, b] at a
+  have e : s.reg u = s.reg t := by simpa using a
+  rw [e] at d
+  rw [← c, d]
+
+theorem lc_own_fn_once {s : LC.St} (h : LC.Reach s) (r : LRet) (hr : r ∈ s.rets) :
+    r.runs = 1 ∧ r.val = r.own := by
+  have := (LC.inv_reach h).rets r hr
+  exact ⟨this.1, this.2.1⟩
+
+/-- a step is disabled only at the mutex or at a wait group -/
+theorem lc_blocked_cases {s : LC.St} {t : Tid} {x : Nat} (hb : LC.step s t x = none) :
+    ((s.pc t = .b0 ∨ s.pc t = .e0) ∧ s.lock ≠ none) ∨ (s.pc t = .b3 ∧ s.wg (s.reg t) ≠ 0) := by
+  unfold LC.step at hb
+  split at hb <;> (try split at hb) <;> simp_all
+
+theorem lc_holder_enabled {s : LC.St} (u : Tid) (hu : (s.pc u).holdsLock = true) (y : Nat) :
+    (LC.step s u y).isSome = true := by
+  unfold LC.step
+  revert hu
+  cases hp : s.pc u <;> simp [LC.PC.holdsLock]
+  split <;> simp
+
+theorem lc_keys_independent {s : LC.St} (h : LC.Reach s) (t : Tid) (x : Nat) (hb : LC.step s t x = none) :
+    (∃ u, s.lock = some u ∧ (s.pc u).holdsLock = true ∧ ∀ y, (LC.step s u y).isSome = true) ∨
+    (s.pc t = .b3 ∧ ∃ u, s.key u = s.key t ∧ (s.pc u).wgOne = true ∧ s.reg u = s.reg t) := by
+  have hi := LC.inv_reach h
+  rcases lc_blocked_cases hb with ⟨_, hl⟩ | ⟨hp, hw⟩
+  · left
+    cases hlk : s.lock with
+    | none => exact absurd hlk hl
+    | some u => exact ⟨u, rfl, hi.lockr u hlk, fun y => lc_holder_enabled u (hi.lockr u hlk) y⟩
+  · right
+    have := (hi.waits t (Or.inr hp)).2.2 hw
+    exact ⟨hp, s.owner (s.reg t), this.2.2, this.1, this.2.1⟩
+
+
+/-- the mutex is released after at most five further steps of its holder, none of them a user step. -/
+theorem lc_lock_released {s : LC.St} (h : LC.Reach s) (u : Tid) (hl : s.lock = some u) :
+    ∃ n, n ≤ 5 ∧ ∃ s', LC.run s (List.replicate n (u, 0)) = some s' ∧ s'.lock = none := by
+  have hp := (LC.inv_reach h).lockr u hl
+  revert hp
+  cases hpc : s.pc u <;> simp [LC.PC.holdsLock]
+  · -- b1
+    cases hm : s.m (s.key u) with
+    | some w => exact ⟨2, by omega, by simp [List.replicate, LC.run, LC.step, hpc, hm, upd]⟩
+    | none => exact ⟨5, by omega, by simp [List.replicate, LC.run, LC.step, hpc, hm, upd]⟩
+  · exact ⟨1, by omega, by simp [List.replicate, LC.run, LC.step, hpc, upd]⟩
+  · exact ⟨4, by omega, by simp [List.replicate, LC.run, LC.step, hpc, upd]⟩
+  · exact ⟨3, by omega, by simp [List.replicate, LC.run, LC.step, hpc, upd]⟩
+  · exact ⟨2, by omega, by simp [List.replicate, LC.run, LC.step, hpc, upd]⟩
+  · exact ⟨1, by omega, by simp [List.replicate, LC.run, LC.step, hpc, upd]⟩
+  · exact ⟨2, by omega, by simp [List.replicate, LC.run, LC.step, hpc, upd]⟩
+  · exact ⟨1, by omega, by simp [List.replicate, LC.run, LC.step, hpc, upd]⟩
+
+
+theorem lc_flow {s s' : LC.St} {t : Tid} {x : Nat} (hs : LC.step s t x = some s') :
+    s'.pc t ∈ LC.succ (s.pc t) ∧ ∀ u, u ≠ t → s'.pc u = s.pc u := LC.step_flow hs
+
+/-! non-vacuity: goroutine 0 runs on key 3; goroutine 1 (same key) finds the wait group, waits, retries and then
+runs its own function; goroutine 2 (key 4) runs to completion while goroutine 0 is still inside its function. -/
+def lcDemo : List (Tid × Nat) :=
+  [(0,3),(0,0),(0,0),(0,0),(0,0),(0,0),(0,0),(0,0),          -- 0: … inside fn (f1)
+   (1,3),(1,0),(1,0),(1,0),                                   -- 1: finds 0's wait group, unlocks, now at Wait
+   (2,4),(2,0),(2,0),(2,0),(2,0),(2,0),(2,0),(2,0),(2,9),(2,0),(2,0),(2,0),(2,0),(2,0),  -- 2: other key, done
+   (0,5),(0,0),(0,0),(0,0),(0,0),(0,0),                       -- 0: fn returns 5, delete, unlock, Done, return
+   (1,0),(1,0),(1,0),(1,0),(1,0),(1,0),(1,0),(1,0),(1,6),(1,0),(1,0),(1,0),(1,0),(1,0)] -- 1: retry, own fn → 6
+
+example : (LC.run LC.init lcDemo).map (fun s => s.rets.map fun r => (r.tid, r.key, r.val, r.runs))
+    = some [(1, 3, 6, 1), (0, 3, 5, 1), (2, 4, 9, 1)] := by decide
+
+/-- goroutine 1 really is blocked at `wg.Wait()` while 0 runs, and `lc_keys_independent` names 0 (same key). -/
+example : (LC.run LC.init (lcDemo.take 12)).map (fun s => (s.pc 1, (LC.step s 1 0).isSome, decide (s.key 0 = s.key 1)))
+    = some (LC.PC.b3, false, true) := by decide
 
 end GoZero.C07
